@@ -397,5 +397,21 @@ def build_values(rng, n_hist, steps=8, kinds=(0,), odd=False, weights=None, unic
                 break
             ops.append(op)
         for i, o in enumerate(pool.objs):
+            # a value that can no longer be observed (the library's own self-check raises) is kept apart:
+            # direct explorations work on observable values and report the others
+            try:
+                guarded(lambda o=o: raw_obs(o))
+            except Exception as e:      # noqa
+                UNOBSERVABLE.append({'history': ops, 'object': i, 'error': '%s: %s' % (type(e).__name__, e)})
+                continue
             out.append((o, ops, i))
+    return out
+
+
+UNOBSERVABLE = []      # filled by build_values; drained by the caller
+
+
+def drain_unobservable():
+    out = list(UNOBSERVABLE)
+    del UNOBSERVABLE[:]
     return out
